@@ -21,14 +21,14 @@ import (
 type opKind int
 
 const (
-	opMul   opKind = iota // x * c
-	opQuo                 // x / c
-	opAdd                 // x + c
-	opSub                 // x - c
-	opRSub                // c - x
-	opRQuo                // c / x
-	opNeg                 // -x
-	opCall                // F(x), F a math function (or the component-wise vector method of the same name)
+	opMul  opKind = iota // x * c
+	opQuo                // x / c
+	opAdd                // x + c
+	opSub                // x - c
+	opRSub               // c - x
+	opRQuo               // c / x
+	opNeg                // -x
+	opCall               // F(x), F a math function (or the component-wise vector method of the same name)
 )
 
 type chainOp struct {
@@ -109,6 +109,7 @@ type source struct {
 	width int64     // srcBytes: bytes
 	order *ssa.Global
 	fn    *ssa.Function
+	at    ssa.Instruction // the instruction that reads the source (load / UintN call / At call)
 }
 
 // chain is the result of walking one sink back to its source.
@@ -171,6 +172,74 @@ func constOf(v ssa.Value) constant.Value {
 
 func calleeObj(c *ssa.Call) *types.Func { return ssau.CalleeObj(c) }
 
+// bindParam resolves a parameter (possibly re-sliced / converted) to the caller's argument through the context.
+func bindParam(v ssa.Value, ctx *sx.Ctx) (ssa.Value, *sx.Ctx) {
+	for i := 0; i < 8; i++ {
+		p, ok := v.(*ssa.Parameter)
+		if !ok || ctx == nil {
+			return v, ctx
+		}
+		found := false
+		for k, q := range p.Parent().Params {
+			if q == p && k < len(ctx.Call.Call.Args) {
+				v, ctx, found = ctx.Call.Call.Args[k], ctx.Parent, true
+				break
+			}
+		}
+		if !found {
+			return v, ctx
+		}
+	}
+	return v, ctx
+}
+
+// bufferOf resolves a byte-slice operand to (slice value in the function that owns the buffer, extra offset accumulated in callees).
+func (w *walker) bufferOf(v ssa.Value, ctx *sx.Ctx) (ssa.Value, sx.Poly, bool) {
+	var extra sx.Poly
+	for i := 0; i < 8; i++ {
+		fn := fnOfValue(v)
+		if fn == nil {
+			return v, extra, true
+		}
+		e := w.env(fn)
+		root, off := e.SliceRoot(v)
+		p, isParam := root.(*ssa.Parameter)
+		if !isParam || ctx == nil {
+			return v, extra, true
+		}
+		// the callee re-sliced its parameter by a constant amount
+		if _, isC := off.IsConst(); !isC {
+			return v, extra, false
+		}
+		extra = extra.Add(off)
+		nv, nctx := bindParam(p, ctx)
+		if nv == ssa.Value(p) {
+			return v, extra, true
+		}
+		v, ctx = nv, nctx
+	}
+	return v, extra, true
+}
+
+// outermost returns the instruction in the outermost analysed function at which
+// the read happens: the read itself, or the call through which a helper performs it.
+func outermost(in ssa.Instruction, ctx *sx.Ctx) ssa.Instruction {
+	for c := ctx; c != nil; c = c.Parent {
+		in = c.Call
+	}
+	return in
+}
+
+func fnOfValue(v ssa.Value) *ssa.Function {
+	switch x := v.(type) {
+	case ssa.Instruction:
+		return x.Parent()
+	case *ssa.Parameter:
+		return x.Parent()
+	}
+	return nil
+}
+
 // scalar walks a scalar-valued sink.
 func (w *walker) scalar(v ssa.Value, ctx *sx.Ctx) chain {
 	var rev []chainOp // sink first
@@ -219,8 +288,20 @@ func (w *walker) scalar(v ssa.Value, ctx *sx.Ctx) chain {
 				ad := sx.ResolveAddr(x.X)
 				if ad.Slice != nil && len(ad.Path) == 0 {
 					e := w.env(x.Parent())
-					_, off := e.SliceRoot(ad.Slice)
-					res.src = source{kind: srcBytes, base: ad.Slice, index: ad.SliceIdx, off: off.Add(e.Int(ad.SliceIdx)), width: elemSize(ad.Slice.Type()), fn: x.Parent()}
+					idx := e.Int(ad.SliceIdx)
+					base, extra, okB := w.bufferOf(ad.Slice, ctx)
+					if !okB {
+						return fail("buffer re-sliced by a non-constant amount in a helper")
+					}
+					if base != ad.Slice {
+						// the subscript must be a constant when the buffer belongs to a caller
+						if _, isC := idx.IsConst(); !isC {
+							return fail("helper subscripts a caller's buffer with a non-constant index")
+						}
+					}
+					be := w.env(fnOfValue(base))
+					_, off := be.SliceRoot(base)
+					res.src = source{kind: srcBytes, base: base, index: ad.SliceIdx, off: off.Add(extra).Add(idx), width: elemSize(ad.Slice.Type()), fn: fnOfValue(base), at: outermost(x, ctx)}
 					return finish()
 				}
 				// local cell with a single store
@@ -321,9 +402,13 @@ func (w *walker) scalar(v ssa.Value, ctx *sx.Ctx) chain {
 					wd = 8
 				}
 				if wd > 0 {
-					e := w.env(x.Parent())
-					_, off := e.SliceRoot(args[1])
-					src := source{kind: srcBytes, base: args[1], off: off, width: wd, fn: x.Parent()}
+					base, extra, okB := w.bufferOf(args[1], ctx)
+					if !okB {
+						return fail("buffer re-sliced by a non-constant amount in a helper")
+					}
+					be := w.env(fnOfValue(base))
+					_, off := be.SliceRoot(base)
+					src := source{kind: srcBytes, base: base, off: off.Add(extra), width: wd, fn: fnOfValue(base), at: outermost(x, ctx)}
 					if ld, ok := args[0].(*ssa.UnOp); ok && ld.Op == token.MUL {
 						if g, ok := ld.X.(*ssa.Global); ok {
 							src.order = g
